@@ -664,6 +664,30 @@ def _native_roundtrip(tier="quick", seed=0):
     cpb = pkg.core_properties
     n = len([r for r in pkg._rels.values() if r.reltype == RT.CORE_PROPERTIES])
     rec("C18.native.default_part_once", cpa is cpb and n == 1, "core_properties created %d relationships / distinct parts on repeated access" % n, "default-part")
+    # two packages without a core-properties part in one process: each gains its own default part
+    def _coreless():
+        q = Presentation().part.package
+        for r_ in [r.rId for r in q._rels.values() if r.reltype == RT.CORE_PROPERTIES]:
+            q._rels.pop(r_)
+        return q
+
+    bad = None
+    pa, pb = _coreless(), _coreless()
+    ca = pa.core_properties
+    ca.author, ca.title, ca.revision, ca.keywords = "Alice", "Deck A", 41, "k1 k2"
+    ca.created = dt.datetime(2011, 1, 1, 1, 1, 1)
+    cb = pb.core_properties
+    evals += 8
+    got_b = (cb.author, cb.keywords, cb.created, cb.title, cb.revision)
+    if got_b[:3] != ("", "", None) or got_b[3] != "PowerPoint Presentation" or got_b[4] != 1:
+        bad = "default core properties of a second package read author/keywords/created/title/revision = %r after values were assigned on another package" % (got_b,)
+    got_a = (ca.author, ca.title, ca.revision, ca.keywords, ca.created)
+    if got_a != ("Alice", "Deck A", 41, "k1 k2", dt.datetime(2011, 1, 1, 1, 1, 1)):
+        bad = bad or "values assigned on one package read %r after another package gained its default part" % (got_a,)
+    cb.author = "Bob"
+    if ca.author != "Alice":
+        bad = bad or "author assigned on one package reads %r after assigning on another package" % ca.author
+    rec("C18.native.default_parts_of_two_packages_are_independent", bad is None, bad, "default-part")
     return {"contract": "C18.native_roundtrip", "prop": "C18", "status": "ok", "obligations": obls, "paths": 0, "assumed": [], "functions": {},
             "notes": [] if schema is not None else [schema_note], "solver_s": 0.0, "wall_s": _t.time() - t0,
             "bounded": {"name": "C18.native_roundtrip", "bound": "strftime for 9 year widths, strptime on 3 texts, one save/re-open with 5 string properties "
